@@ -228,3 +228,157 @@ UNITS += [
          assumptions=["SimTrackView::status() and PhysicsStepView::secondaries() are plain reads of the slot's entries (view accessors stubbed)"],
          note="LocateAliveExecutor: vacancy entry in {occupied, tid}; occupied iff alive or in-place secondary; inactive slots count 0 regardless of stale spans; count = valid secondaries minus the in-place one; only this slot's entries written (any number of secondaries)"),
 ]
+
+
+# ---------------------------------------------------------------------------
+# ProcessSecondariesExecutor
+# ---------------------------------------------------------------------------
+from vkit.extract import StripPP  # noqa: E402
+
+PSE_MODEL = """
+#include <stdlib.h>
+enum { TS_inactive = 0, TS_initializing = 1, TS_alive = 2, TS_errored = 3, TS_killed = 4 };
+enum { TO_none = 0, TO_init_charge = 1 };
+typedef struct { real_type v[1]; } Real3;     /* positions / directions abstracted to one component (values irrelevant for the bookkeeping) */
+typedef struct { size_type particle_id; real_type energy; Real3 direction; } Secondary;
+typedef struct { Secondary* ptr; size_type size; } SpanSecondary;
+typedef struct { size_type track_id, parent_id, event_id; real_type time; } SimInit;
+typedef struct { Real3 pos; Real3 dir; } GeoInit;
+typedef struct { size_type particle_id; real_type energy; } ParticleInit;
+typedef struct { SimInit sim; GeoInit geo; ParticleInit particle; } TrackInitializer;
+typedef struct { size_type num_initializers, num_vacancies, num_secondaries; } CoreStateCounters;
+typedef struct { TrackInitializer* initializers; size_type capacity; size_type* secondary_counts; TrackSlotId* parents; size_type parents_size; size_type* track_counters; size_type num_events; } TrackInitStateData;
+typedef struct { int* status; size_type* track_id; size_type* event_id; real_type* time; SpanSecondary* secondaries; size_type size_; TrackInitStateData init; } CoreStateData;
+typedef struct { struct { int track_order; } init; } CoreParamsData;
+typedef struct { CoreParamsData const* params; CoreStateData* state; CoreStateCounters counters; } Executor;
+typedef struct { CoreStateData* st; TrackSlotId tid; } SimTrackView;
+static int STV_status(SimTrackView const* v) { return v->st->status[v->tid]; }
+static size_type STV_track_id(SimTrackView const* v) { return v->st->track_id[v->tid]; }
+static size_type STV_event_id(SimTrackView const* v) { return v->st->event_id[v->tid]; }
+static real_type STV_time(SimTrackView const* v) { return v->st->time[v->tid]; }
+/* ---- ghost ---- */
+size_type g_writes;                 /* number of initializers stored by this call */
+size_type g_first;                  /* index of the first stored initializer */
+size_type g_ids;                    /* number of track ids drawn from the event counter */
+size_type g_inplace;                /* 1 if a secondary was initialised in the parent's slot */
+size_type g_k; size_type g_oldk;    /* witness initializer index and its track id before (frame) */
+size_type g_vp[66];                 /* ghost: g_vp[k] = number of valid secondaries among the first k (precondition witness, used by instance) */
+size_type g_nsec;
+/* make_track_id (enforced in c02_make_track_id): returns the event's counter and increments it */
+size_type make_track_id(TrackInitStateData* data, size_type event)
+__CPROVER_requires(data != 0 && event < data->num_events)
+__CPROVER_assigns(data->track_counters[event], g_ids)
+__CPROVER_ensures(__CPROVER_return_value == __CPROVER_old(data->track_counters[event]) && data->track_counters[event] == __CPROVER_old(data->track_counters[event]) + 1 && g_ids == __CPROVER_old(g_ids) + 1)
+;
+/* in-place initialisation of the first secondary in the dying parent's slot: sim = ti.sim; geo = ...; particle = ...; phys = {} */
+void INPLACE_init(Executor const* self, TrackSlotId tid, TrackInitializer const* ti)
+__CPROVER_requires(self != 0 && ti != 0 && tid < self->state->size_)
+__CPROVER_assigns(self->state->status[tid], self->state->track_id[tid], g_inplace)
+__CPROVER_ensures(self->state->status[tid] == TS_initializing && self->state->track_id[tid] == ti->sim.track_id && g_inplace == __CPROVER_old(g_inplace) + 1)
+;
+"""
+
+PSE_RULES = [
+    StripPP(r"!CELER_DEVICE_COMPILE", keep_else=False, fires="*", note="host logging block dropped"),
+    Rule(r"state->size\(\)", "self->state->size_", 1, note="CoreStateData::size()"),
+    Rule(r"SimTrackView sim\(params->sim, state->sim, tid\);", "SimTrackView sim = {self->state, tid};", 1, note="view construction"),
+    Rule(r"auto& data = state->init;", "TrackInitStateData* data = &self->state->init; g_writes = 0; g_ids = 0; g_inplace = 0; g_first = INVALID_ID; /* ghost init */", 1, note="reference -> pointer; ghost init"),
+    Rule(r"\bdata\.", "data->", "*", note="reference -> pointer"),
+    Rule(r"\bcounters\.", "self->counters.", "*", note="executor data member"),
+    Rule(r"bool initialized = false;", "bool initialized = 0;", 1, note="bool literal"),
+    Rule(r"TrackId const parent_id\{sim\.track_id\(\)\};", "size_type const parent_id = STV_track_id(&sim);", 1, note="OpaqueId copy"),
+    Rule(r"PhysicsStepView const phys_step\(params->physics, state->physics, tid\);", "SpanSecondary sp_ = self->state->secondaries[tid];", 1, note="view -> the span it returns"),
+    Rule(r"for \(auto const& secondary : phys_step\.secondaries\(\)\)\s*\{", "for (size_type si_ = 0; si_ < sp_.size; ++si_)\n    {\n        Secondary const* secondary = &sp_.ptr[si_];\n"
+         "        /* ghost: instance at element si_ of the precondition `g_vp counts the valid secondaries` */\n"
+         "        __CPROVER_assume(g_vp[si_ + 1] == g_vp[si_] + (secondary->particle_id != INVALID_ID ? 1 : 0));", 1, note="range-for over a Span -> index loop; ghost instance"),
+    Rule(r"if \(secondary\)", "if (secondary->particle_id != INVALID_ID)", 1, note="Secondary::operator bool"),
+    Rule(r"CELER_ASSERT\(secondary\.energy > zero_quantity\(\)\s*&& is_soft_unit_vector\(secondary\.direction\)\);", "/* NOT PROMOTED: CELER_ASSERT(secondary.energy > 0 && unit direction) -- physics of the interactor (C04) */", 1, note="in-body assert not promoted"),
+    Rule(r"GeoTrackView geo\(params->geometry, state->geometry, tid\);", "", 1, note="geometry view dropped (position abstracted)"),
+    Rule(r"CELER_ASSERT\(!geo\.is_on_boundary\(\)\);", "/* NOT PROMOTED: CELER_ASSERT(!geo.is_on_boundary()) -- geometry state */", 1, note="in-body assert not promoted"),
+    Rule(r"TrackInitializer ti;", "TrackInitializer ti = {{INVALID_ID, INVALID_ID, INVALID_ID, 0}, {{{0}}, {{0}}}, {INVALID_ID, 0}};", 1, note="default member initializers"),
+    Rule(r"make_track_id\(params->init, data, sim\.event_id\(\)\)", "make_track_id(data, STV_event_id(&sim))", 1, note="call"),
+    Rule(r"sim\.(event_id|time|status)\(\)", r"STV_\1(&sim)", "*", note="view read"),
+    Rule(r"ti\.geo\.pos = geo\.pos\(\);", "/* ti.geo.pos = geo.pos(): position abstracted */", 1, note="geometry read dropped"),
+    Rule(r"ti\.geo\.dir = secondary\.direction;", "ti.geo.dir = secondary->direction;", 1, note="reference -> pointer"),
+    Rule(r"secondary\.(particle_id|energy)", r"secondary->\1", "*", note="reference -> pointer"),
+    Rule(r"CELER_ASSERT\(ti\);", "CELER_ASSERT(ti.sim.track_id != INVALID_ID && ti.particle.particle_id != INVALID_ID);", 1, note="TrackInitializer::operator bool (particle and sim valid)"),
+    Rule(r"TrackStatus::(\w+)", r"TS_\1", "*", note="enum"),
+    Rule(r"TrackOrder::(\w+)", r"TO_\1", "*", note="enum"),
+    Rule(r"params->init\.track_order", "self->params->init.track_order", "*", note="executor data member"),
+    Rule(r"ParticleTrackView particle\(\s*params->particles, state->particles, tid\);\s*PhysicsTrackView phys\(\s*params->physics, state->physics, \{\}, \{\}, tid\);", "", 1, flags=16, note="view constructions dropped (in-place initialisation stubbed)"),
+    Rule(r"sim = ti\.sim;\s*geo = GeoTrackView::DetailedInitializer\{geo, ti\.geo\.dir\};\s*particle = ti\.particle;\s*phys = \{\};", "INPLACE_init(self, tid, &ti);", 1, flags=16, note="four view assignments -> one stub (sim/geo/particle/phys re-initialised in place)"),
+    Rule(r"initialized = true;", "initialized = 1;", 1, note="bool literal"),
+    Rule(r"data->initializers\[ItemId<TrackInitializer>\{\s*self->counters\.num_initializers - offset\}\]\s*= ti;",
+         "{ size_type wi_ = self->counters.num_initializers - offset; __CPROVER_assert(wi_ < data->capacity, \"celer_expect: Collection::operator[] i < size (initializers)\");"
+         " __CPROVER_assert(g_writes == 0 ? 1 : wi_ == g_first + g_writes, \"ghost.consecutive: initializers are stored at consecutive indices\"); if (g_writes == 0) g_first = wi_; ++g_writes; data->initializers[wi_] = ti; }", 1, note="Collection[ItemId] store -> bounds assertion + ghost write record"),
+    Rule(r"data->parents\.size\(\)", "data->parents_size", "*", note="Collection::size()"),
+    Rule(r"data->parents\[TrackSlotId\(data->parents_size - offset\)\]\s*= tid;", "{ __CPROVER_assert(data->parents_size - offset < data->parents_size, \"celer_expect: Collection::operator[] i < size (parents)\"); data->parents[data->parents_size - offset] = tid; }", 1, note="Collection[TrackSlotId] store"),
+    Rule(r"sim\.status\(TS_inactive\);", "self->state->status[tid] = TS_inactive;", 1, note="view setter"),
+    LoopContracts([
+        "    __CPROVER_assigns(si_, offset, initialized, g_writes, g_first, g_ids, g_inplace, self->state->status[tid], self->state->track_id[tid], __CPROVER_object_whole(data->initializers), __CPROVER_object_whole(data->parents), __CPROVER_object_whole(data->track_counters))\n"
+        "    __CPROVER_loop_invariant(si_ <= sp_.size && g_vp[si_] <= g_vp[sp_.size] && g_inplace == (initialized ? 1 : 0) && g_inplace <= 1)\n"
+        "    __CPROVER_loop_invariant(g_ids == g_vp[si_] && g_writes + g_inplace == g_vp[si_] && offset + g_writes == g_off0)\n"
+        "    __CPROVER_loop_invariant(g_writes > 0 ==> g_first == self->counters.num_initializers - g_off0)\n"
+        "    __CPROVER_loop_invariant((initialized || g_st0 == TS_alive || self->params->init.track_order == TO_init_charge) ? 1 : g_vp[si_] == 0)\n"
+        "    __CPROVER_loop_invariant(g_k < data->capacity && !(g_writes > 0 && g_k >= g_first && g_k < g_first + g_writes) ==> data->initializers[g_k].sim.track_id == g_oldk)\n"
+        "    __CPROVER_loop_invariant(initialized ? self->state->status[tid] == TS_initializing : self->state->status[tid] == g_st0)\n"
+        "    __CPROVER_decreases(sp_.size - si_)\n"]),
+]
+
+
+def build_process_secondaries(ctx):
+    pc = ctx.func(PS, r"^ProcessSecondariesExecutor::operator\(\)\(TrackSlotId tid\) const", PSE_RULES, name="ProcessSecondariesExecutor::operator()")
+    body = pc.body.replace("size_type offset = self->counters.num_secondaries - data->secondary_counts[tid];", "size_type offset = self->counters.num_secondaries - data->secondary_counts[tid]; g_off0 = offset; g_st0 = self->state->status[tid]; /* ghost */")
+    return (HDR + ID_TYPES + PSE_MODEL + """
+size_type g_off0; int g_st0;
+#define ST (self->state)
+#define NVALID (g_vp[ST->secondaries[tid].size])
+#define WILL_INPLACE (ST->status[tid] != TS_alive && self->params->init.track_order != TO_init_charge && NVALID > 0)
+#define NSTORE (NVALID - (WILL_INPLACE ? 1 : 0))
+void PSE_call(Executor const* self, TrackSlotId tid)
+__CPROVER_requires(self != 0 && self->params != 0 && ST != 0 && ST->size_ >= 1 && ST->size_ <= 8 && tid < ST->size_)      /* own CELER_EXPECT */
+__CPROVER_requires(__CPROVER_rw_ok(ST->status, ST->size_ * sizeof(int)) && __CPROVER_rw_ok(ST->track_id, ST->size_ * sizeof(size_type)) && __CPROVER_r_ok(ST->event_id, ST->size_ * sizeof(size_type)) && __CPROVER_r_ok(ST->time, ST->size_ * sizeof(real_type)))
+__CPROVER_requires(__CPROVER_r_ok(ST->secondaries, ST->size_ * sizeof(SpanSecondary)) && ST->secondaries[tid].size <= 64 && __CPROVER_r_ok(ST->secondaries[tid].ptr, ST->secondaries[tid].size * sizeof(Secondary)))
+__CPROVER_requires(ST->init.capacity >= 1 && ST->init.capacity <= 32 && __CPROVER_rw_ok(ST->init.initializers, ST->init.capacity * sizeof(TrackInitializer)) && __CPROVER_r_ok(ST->init.secondary_counts, ST->size_ * sizeof(size_type)))
+__CPROVER_requires(ST->init.parents_size == ST->size_ && __CPROVER_rw_ok(ST->init.parents, ST->size_ * sizeof(TrackSlotId)) && ST->init.num_events >= 1 && ST->init.num_events <= 4 && __CPROVER_rw_ok(ST->init.track_counters, ST->init.num_events * sizeof(size_type)))
+__CPROVER_requires(ST->status[tid] >= 0 && ST->status[tid] <= 4 && ST->status[tid] != TS_initializing && ST->track_id[tid] != INVALID_ID && ST->event_id[tid] < ST->init.num_events && ST->init.track_counters[ST->event_id[tid]] < 1000000)
+/* what LocateAlive + exclusive_scan established: secondary_counts[tid] is the prefix sum of the counts of the slots before tid, and this slot's own count
+   (valid secondaries minus the one initialised in place, c02_locate_alive) fits behind it; capacity was validated (c16_efs_step) */
+__CPROVER_requires(g_vp[0] == 0 && (ST->status[tid] != TS_inactive ==> (unsigned __int128)ST->init.secondary_counts[tid] + NSTORE <= self->counters.num_secondaries))
+__CPROVER_requires(self->counters.num_secondaries <= self->counters.num_initializers && self->counters.num_initializers <= ST->init.capacity)
+__CPROVER_requires(g_k < ST->init.capacity && g_oldk == ST->init.initializers[g_k].sim.track_id)
+__CPROVER_assigns(g_writes, g_first, g_ids, g_inplace, g_off0, g_st0, ST->status[tid], ST->track_id[tid], __CPROVER_object_whole(ST->init.initializers), __CPROVER_object_whole(ST->init.parents), __CPROVER_object_whole(ST->init.track_counters))
+/* an inactive slot creates nothing from its stale data */
+__CPROVER_ensures(g_st0 == TS_inactive ==> (g_writes == 0 && g_ids == 0 && g_inplace == 0))
+/* every valid secondary gets exactly one event-unique id and becomes exactly one track: either stored as an initializer or initialised in the parent's slot */
+__CPROVER_ensures(g_st0 != TS_inactive ==> (g_ids == NVALID && g_writes + g_inplace == NVALID && g_inplace == (WILL_INPLACE_OLD ? 1 : 0)))
+/* the stored initializers occupy exactly this slot's private range [num_initializers - (num_secondaries - prefix), ... + count), inside the buffer; nothing else is overwritten */
+__CPROVER_ensures(g_writes > 0 ==> (g_first == self->counters.num_initializers - (self->counters.num_secondaries - ST->init.secondary_counts[tid]) && g_first + g_writes <= ST->init.capacity))
+__CPROVER_ensures(!(g_writes > 0 && g_k >= g_first && g_k < g_first + g_writes) ==> ST->init.initializers[g_k].sim.track_id == g_oldk)
+/* the slot is never left in the killed state (its own CELER_ENSURE): it holds the in-place secondary, stays alive, or becomes inactive */
+__CPROVER_ensures(ST->status[tid] != TS_killed)
+{""" + body + """}
+void h_pse(void)
+{
+    size_type n, tid, k, ns, cap, nev; int order; __CPROVER_assume(n >= 1 && n <= 8 && ns <= 64 && cap >= 1 && cap <= 32 && nev >= 1 && nev <= 4);
+    CoreParamsData p = {{order}};
+    CoreStateData s = {malloc(n * sizeof(int)), malloc(n * sizeof(size_type)), malloc(n * sizeof(size_type)), malloc(n * sizeof(real_type)), malloc(n * sizeof(SpanSecondary)), n,
+                       {malloc(cap * sizeof(TrackInitializer)), cap, malloc(n * sizeof(size_type)), malloc(n * sizeof(TrackSlotId)), n, malloc(nev * sizeof(size_type)), nev}};
+    Secondary* secs = malloc(ns * sizeof(Secondary));
+    __CPROVER_assume(s.status && s.track_id && s.event_id && s.time && s.secondaries && s.init.initializers && s.init.secondary_counts && s.init.parents && s.init.track_counters && secs);
+    Executor ex = {&p, &s, {0, 0, 0}}; size_type a, b, c; ex.counters.num_initializers = a; ex.counters.num_vacancies = b; ex.counters.num_secondaries = c;
+    if (tid < n) { s.secondaries[tid].ptr = secs; s.secondaries[tid].size = ns; }
+    g_k = k; if (k < cap) g_oldk = s.init.initializers[k].sim.track_id;
+    PSE_call(&ex, tid);
+    VERIF_CANARY();
+}
+""").replace("WILL_INPLACE_OLD", "(g_st0 != TS_alive && self->params->init.track_order != TO_init_charge && NVALID > 0)")
+
+
+UNITS += [
+    Unit("c02_process_secondaries", build_process_secondaries, "h_pse", enforce="PSE_call", replace=["make_track_id", "INPLACE_init"], loop_contracts=True, timeout=1200, object_bits=12, backend=["sat", "cvc5"],
+         must_have=[r"PSE_call.postcondition", r"loop_invariant_step", r"celer_assert", r"celer_ensure", r"ghost.consecutive", r"make_track_id.precondition"], checks=["--bounds-check", "--pointer-check"],
+         assumptions=["valid-secondary prefix counts (g_vp) used through per-element instances; positions/directions abstracted; in-place re-initialisation of the parent's slot (sim/geo/particle/phys assignments) stubbed; atomics sequential",
+                      "NOT PROMOTED: CELER_ASSERT(secondary.energy > 0 && unit direction), CELER_ASSERT(!geo.is_on_boundary())"],
+         note="ProcessSecondariesExecutor: every valid secondary gets one id and becomes exactly one track (stored or in place); stores go to consecutive indices of the slot's private range inside the buffer and nothing else is overwritten; inactive slots create nothing; the slot is never left killed"),
+]
